@@ -165,12 +165,12 @@ class InversionImagingMapping(AbstractInversionImaging):
                 mapping_matrix=mapper_i.mapping_matrix
             )
 
+            # The term added to the diagonal for linear objects without regularization is NOT included: this matrix
+            # holds one mapper's block only (the `no_regularization_index_list` indexes the full matrix) and whoever
+            # uses it (`InversionImagingWTilde.curvature_matrix`, via the preloads) adds that term to the full matrix.
             diag = inversion_util.curvature_matrix_via_mapping_matrix_from(
                 mapping_matrix=operated_mapping_matrix,
                 noise_map=self.noise_map,
-                settings=self.settings,
-                add_to_curvature_diag=True,
-                no_regularization_index_list=self.no_regularization_index_list,
             )
 
             curvature_matrix[
